@@ -55,6 +55,49 @@ def _disk(sim, origin, geoid) -> int:
         return 10 ** 6
 
 
+def station_choice_facts(veh, origin_geoid, sim, env) -> List[Dict[str, Any]]:
+    """the candidates of the NEAREST_SHORTEST_QUEUE station search for this vehicle from this origin: every station it may
+    use that has an on-shift plug it can use (with at least one installed), with the search disk it lies in (h3 grid
+    distance of the search cells), the order in which the ring search meets it, and for every such plug the metric
+    grid distance * (1 + waiting / installed) as the exact fraction num / den"""
+    import h3
+
+    mech = env.mechatronics.get(veh.mechatronics_id)
+    max_k = _max_k(sim, env)
+    res = sim.sim_h3_search_resolution
+    search = h3.h3_to_parent(origin_geoid, res)
+    cands = []
+    for s in sim.get_stations():
+        if not s.membership.grant_access_to_membership(veh.membership):
+            continue
+        k = _disk(sim, origin_geoid, s.geoid)
+        if k > max_k:
+            continue
+        try:
+            d = int(h3.h3_distance(origin_geoid, s.geoid))
+        except Exception:
+            continue
+        plugs = []
+        ids = sorted(s.on_shift_access_chargers)
+        for n, cid in enumerate(ids):
+            c = env.chargers.get(cid)
+            tot = s.get_total_chargers(cid) or 0
+            if c is None or not mech.valid_charger(c) or tot <= 0:
+                continue
+            enq = s.enqueued_vehicle_count_for_charger(cid) or 0
+            plugs.append({"id": cid, "ir": n + 1, "num": d * (tot + enq), "den": tot})
+        if plugs:
+            cands.append({"id": s.id, "k": k, "ord": 0, "plugs": plugs, "geoid": s.geoid})
+    # the order in which the ring search meets the stations of a disk: cells in sorted order, stations of a cell by id
+    for c in cands:
+        cells = sorted(h3.k_ring(search, c["k"]))
+        cell = h3.h3_to_parent(c["geoid"], res)
+        c["ord"] = cells.index(cell) * 10000 + sorted(x["id"] for x in cands if h3.h3_to_parent(x["geoid"], res) == cell).index(c["id"]) if cell in cells else 0
+    for c in cands:
+        del c["geoid"]
+    return cands
+
+
 def driver_facts(veh, sim, env) -> Optional[Dict[str, Any]]:
     from nrel.hive.model.energy.energytype import EnergyType
 
@@ -137,6 +180,8 @@ def driver_facts(veh, sim, env) -> Optional[Dict[str, Any]]:
                 reach = True
         f["stations"] = sorted(pairs)
         f["stations_must"] = bool(reach and cfg.charging_search_type == ChargingSearchType.NEAREST_SHORTEST_QUEUE)
+        if cfg.charging_search_type == ChargingSearchType.NEAREST_SHORTEST_QUEUE:
+            f["choice"] = station_choice_facts(veh, veh.geoid, sim, env)
     # request density (human drivers look for requests)
     if drv == "avail" and sim.r_search:
         import h3
@@ -219,13 +264,18 @@ class PolicyLog:
                 else:
                     continue     # not a stack this module can read (C09 reports it)
                 drivers.append(f)
-        cfm = {"present": False, "complete": False, "emitted": [], "veh": []}
+        cfm = {"present": False, "complete": False, "emitted": [], "veh": [], "sent": []}
         mine = [g for g in gens if g["name"] == "ChargingFleetManager"]
         if len(mine) == 1 and env.config.dispatcher.charging_search_type == ChargingSearchType.NEAREST_SHORTEST_QUEUE:
             max_k = _max_k(sim, env)
             veh = [cfm_facts(v, sim, env, max_k) for v in sim.get_vehicles() if env.mechatronics.get(v.mechatronics_id)]
             cands = [c for c in veh if c["proper"] and c["le_soft"] and c["near_ok"]]
+            by_id = {v.id: v for v in sim.get_vehicles()}
+            sent = [{"v": i["v"], "tgt": i["tgt"], "plug": i["plug"],
+                     "choice": station_choice_facts(by_id[i["v"]], by_id[i["v"]].geoid, sim, env)}
+                    for i in mine[0]["instrs"] if i["v"] in by_id and i["kind"] == "DispatchStation"]
             cfm = {
+                "sent": sent,
                 "present": True,
                 # the code stops at the first candidate that may use no station at all
                 "complete": all(c["access_any"] for c in cands),
